@@ -20,8 +20,8 @@ ENCODED = ["twisted.conch.ssh.transport:SSHTransportBase.sendPacket",
            "twisted.conch.ssh.transport:SSHTransportBase.dataReceived",
            "twisted.conch.ssh.transport:SSHTransportBase.connectionMade",
            "twisted.conch.ssh.transport:SSHCiphers"]
-BOUNDS = {"quick": {"p": 2, "p2": 1, "v": 1, "ban": 1, "pad": 6, "ms": 4, "cuts": 1, "lcut": 9},
-          "thorough": {"p": 4, "p2": 3, "v": 2, "ban": 2, "pad": 12, "ms": 20, "cuts": 2, "lcut": 64}}
+BOUNDS = {"quick": {"p": 2, "p2": 1, "v": 1, "ban": 1, "pad": 6, "ms": 4, "cuts": 1, "lcut": 9, "n": 18},
+          "thorough": {"p": 4, "p2": 3, "v": 2, "ban": 2, "pad": 12, "ms": 20, "cuts": 2, "lcut": 64, "n": 70}}
 B = {}
 BOUNDS_TEXT = ("1-2 packets; message number any 0..255, payload of 0..p (second packet 0..p2) symbolic bytes (all 256 "
                "values); random padding = symbolic bytes (first `pad` bytes of the random pool symbolic, rest 0x99); "
@@ -421,7 +421,7 @@ def framing(bs: int, ms: int, m1: int, p1: str, m2: int, p2: str, pad: str, s1: 
     pre: len(p1) <= B['p'] and len(p2) <= B['p2'] and len(pad) == B['pad']
     pre: all(ord(c) < 256 for c in p1 + p2 + pad)
     pre: 0 <= s1 <= s2
-    pre: B['cuts'] == 2 or s1 == 0
+    pre: (B['cuts'] == 2 and ms == 0) or s1 == 0
     pre: ms > 0 or (ok1 and ok2)
     post: _
     """
@@ -553,6 +553,57 @@ def badlength(bs: int, ms: int, hdr: str, fill: str, s1: int) -> bool:
     return ord(plain[5]) == gm and plain[6:plen] == gp
 
 
+def padding(model: bool, m1: int, c: str, n: int, pad: str) -> bool:
+    """
+    pre: 0 <= m1 <= 255 and len(c) == 1 and ord(c) < 256 and 0 <= n <= B['n']
+    pre: len(pad) == 4 and all(ord(x) < 256 for x in pad)
+    post: _
+    """
+    # every payload length 0..n (all residues modulo the block size): padding arithmetic of sendPacket
+    # against the reference rule, and the receiver's view of it (two equal sized packets, one delivery)
+    n = _split_cases(B['n'], n)
+    c = _fix(c, 1)
+    pad = _fix(pad, 4)
+    p = (c + "y" * n)[:n]
+    bs, ms = (16, B['ms']) if model else (8, 0)
+    _RAND.reset(pad)
+    snd = _new()
+    if model:
+        snd.currentEncryptions = _Model(bs, ms, [])
+    snd.sendPacket(m1, b(p))
+    snd.sendPacket(m1, b(p))
+    out = snd.transport.out[1:]
+    api.obs(out)
+    ref = _Rand()
+    ref.reset(pad)
+    chk = _Model(bs, ms, [])
+    for i in range(2):
+        plain = _ref_packet(m1, p, ref, bs)
+        k = ord(plain[4])
+        # RFC 4253 section 6, spelled out on the reference packet itself
+        if not (len(plain) % bs == 0 and len(plain) >= 16 and 4 <= k <= 255 and len(plain) == 4 + 1 + 1 + n + k
+                and _be32(len(plain) - 4) == plain[:4]):
+            return False
+        want = (t(chk.encrypt(b(plain))) + chk._tag(i, plain)) if model else plain
+        if len(out) != 2 or want != out[i]:
+            return False
+    if _RAND.asked != [ord(plain[4])] * 2 or snd.outgoingPacketSequence != 2:
+        return False
+    rcv = _new()
+    rcv.dataReceived(b(snd.transport.out[0]))
+    if model:
+        rcv.currentEncryptions = _Model(bs, ms, [])
+    rcv.dataReceived(b(out[0] + out[1]))
+    api.obs((rcv.got, rcv.seqs, rcv.disc))
+    cover()
+    if rcv.disc != [] or len(rcv.got) != 2 or rcv.seqs != [1, 2] or rcv.incomingPacketSequence != 2:
+        return False
+    for gm, gp in rcv.got:
+        if not (m1 == gm and p == gp):
+            return False
+    return t(rcv.buf) == "" and not hasattr(rcv, "first")
+
+
 def _len_shards(name, hi):
     return ["len(%s) == %d" % (name, k) for k in range(hi + 1)]
 
@@ -573,6 +624,7 @@ HARNESSES = [
       labels=("end", "badmac"), timeout={"quick": 90, "thorough": 1500}),
     H(badlength, shards=lambda tier: [("bs == %d" % x, "ms == %d" % y) for x in (8, 16) for y in (0, BOUNDS[tier]["ms"])],
       labels=("end", "huge", "short", "badmod"), timeout={"quick": 90, "thorough": 900}),
+    H(padding, shards=[("model",), ("not model",)], timeout={"quick": 90, "thorough": 900}),
 ]
 
 VECTORS = {
@@ -584,6 +636,7 @@ VECTORS = {
                 (0, "", "z", False, 94, "\n", "SSH.", 0, 12)],
     "framing": [(8, 4, 65, "BCD", 66, "", "\x99" * 6, 0, 9, True, True), (16, 4, 65, "B", 66, "C", "abcdef", 0, 40, True, False),
                 (16, 0, 1, "", 2, "", "abcdef", 5, 16, True, True), (8, 4, 65, "B", 66, "C", "abcdef", 0, 0, False, True)],
+    "padding": [(False, 65, "B", 6, "\x99" * 4), (True, 65, "B", 6, "\x99" * 4), (False, 0, "\n", 0, "abcd"), (True, 255, "\xff", 17, "abcd")],
     "badlength": [(8, 0, "\x00\x00\x00\x0c", "AB", 0), (8, 4, "\x00\x00\x00\x1c", "AB", 7), (16, 0, "\x00\x00\x00\x0c", "AB", 0),
                   (8, 0, "\x00\x10\x00\x01", "AB", 0), (8, 0, "\x00\x00\x01\x00", "AB", 9), (16, 4, "\x00\x00\x00\x1c", "AB", 20)],
 }
